@@ -4,7 +4,7 @@ def plan(tier):
         "mc": [{"module": "AlignmentMC", "cfg": "AlignmentMC.cfg" if q else "AlignmentMC_thorough.cfg",
                 "timeout": 3000}],
         "families": [{"fam": "pairwise", "trace": "AlignmentTrace", "nfiles": 4}],
-        "required_obligations": ["exhaustive_small", "empty_x", "empty_y", "both_empty", "gap_extend_zero",
+        "required_obligations": ["exhaustive_small", "alphabet_high_bit_twins", "empty_x", "empty_y", "both_empty", "gap_extend_zero",
                                  "custom_xclip_prefix_used", "custom_xclip_suffix_used",
                                  "custom_yclip_prefix_used", "custom_yclip_suffix_used", "custom_fully_clipped",
                                  "large_then_small_same_aligner"],
